@@ -7,6 +7,7 @@ package main
 // obligations, the observed result for postconditions).
 
 import (
+	"context"
 	"encoding/json"
 	"fmt"
 	"go/types"
@@ -14,6 +15,7 @@ import (
 	"os"
 	"os/exec"
 	"path/filepath"
+	"regexp"
 	"strconv"
 	"strings"
 	"time"
@@ -315,6 +317,22 @@ func (e *Engine) Replay(o *Obligation, outDir string) {
 		for i, p := range vc.fn.Params {
 			args = append(args, r.render(p.Type(), vc.params[vc.con.Params[i]], 0))
 		}
+		// scalar results the counter-model predicts for this return (oracle for postconditions of side-effect free functions)
+		var predicted []string
+		if o.Kind == "post" && len(o.ResultSVs) > 0 && r.fail == "" {
+			for _, rv := range o.ResultSVs {
+				sc, ok := rv.(Sc)
+				if !ok || (sc.S != "Int" && sc.S != "Bool") {
+					predicted = nil
+					break
+				}
+				v := r.val(sc.T)
+				if n, isInt := parseIntVal(v); isInt {
+					v = fmt.Sprint(n)
+				}
+				predicted = append(predicted, v)
+			}
+		}
 		s.close()
 		if r.fail != "" {
 			info[fmt.Sprintf("candidate_render_%d", level)] = r.fail
@@ -328,6 +346,28 @@ func (e *Engine) Replay(o *Obligation, outDir string) {
 			info["approximations"] = r.approx
 		}
 		out, verdict := e.runOverlayTest(vc, test, outDir, o)
+		if len(predicted) > 0 && len(r.approx) == 0 && !strings.HasPrefix(verdict, "CONFIRMED") && strings.Contains(out, "GOVC-RETURNED") &&
+			(vc.con.Assigns == "nothing" || vc.con.Pure) {
+			// the function has no side effects, its inputs were rendered exactly, and the clause is false for the
+			// (inputs, results) of the counter-model: if the real code returns exactly those results, it violates the clause
+			same := true
+			for j, pv := range predicted {
+				m := regexp.MustCompile(fmt.Sprintf(`(?m)^GOVC-RESULT %d: (.*)$`, j)).FindStringSubmatch(out)
+				if m == nil || strings.TrimSpace(m[1]) != pv {
+					same = false
+				}
+			}
+			info["predicted_results"] = predicted
+			if same && !e.clauseRefuted(o, r.model, outDir) {
+				// the candidate model came from the query WITHOUT quantified axioms; with them the clause may well
+				// hold for these values, so this is not a confirmation
+				same = false
+				info["oracle_note"] = "real results equal the candidate model's, but with the full axioms the clause is not refuted for these inputs (candidate was an artefact of dropping axioms)"
+			}
+			if same {
+				verdict = "CONFIRMED: the real function returns the results of the counter-model (" + strings.Join(predicted, ", ") + "), for which the clause is false"
+			}
+		}
 		info["test_output"] = truncate(out, 4000)
 		info["verdict"] = verdict
 		if strings.HasPrefix(verdict, "CONFIRMED") {
@@ -335,6 +375,35 @@ func (e *Engine) Replay(o *Obligation, outDir string) {
 			return
 		}
 	}
+}
+
+// clauseRefuted: with ALL axioms, the inputs pinned to the candidate model's values and the path condition
+// asserted, the clause itself is unsatisfiable — i.e. for these inputs the function (as modelled) cannot satisfy it.
+func (e *Engine) clauseRefuted(o *Obligation, model map[string]string, outDir string) bool {
+	var body strings.Builder
+	for _, l := range (*o.Script)[:o.Prefix] {
+		body.WriteString(l + "\n")
+	}
+	for _, l := range o.Extra {
+		body.WriteString(l + "\n")
+	}
+	lit := regexp.MustCompile(`^(\(- \d+\)|\d+|true|false)$`)
+	for term, val := range model {
+		if lit.MatchString(val) {
+			body.WriteString("(assert (= " + term + " " + val + "))\n")
+		}
+	}
+	body.WriteString("(assert " + o.Guard + ")\n(assert " + o.Goal + ")\n")
+	b := body.String()
+	txt := "; oracle for " + o.Name + ": clause asserted positively on the pinned candidate input\n(set-logic ALL)\n" + e.Prelude.Slice(b) + b + "(check-sat)\n"
+	file := filepath.Join(outDir, strings.TrimSuffix(o.fileName(), ".smt2")+".oracle.smt2")
+	os.WriteFile(file, []byte(txt), 0o644)
+	for _, sp := range solvers[:2] {
+		if rr := runSolver(context.Background(), sp, file, 10); rr.status == "unsat" {
+			return true
+		}
+	}
+	return false
 }
 
 func (e *Engine) replayTest(vc *VC, o *Obligation, r *renderer, args []string) string {
